@@ -56,6 +56,10 @@ FILE_ENVIRON_KEY = "ANS_STATIC_ANALYSIS_FILE"
 # this comment, the error is ignored.
 IGNORE_COMMENT = "# static analysis: ignore"
 
+# The line terminators that the Python tokenizer recognizes. str.splitlines() also splits
+# on other characters (e.g., form feeds), so its line numbers can disagree with the AST's.
+_LINE_TERMINATOR = re.compile(r"\r\n|\r|\n")
+
 # Upper limit on the number of iterations when repeat_until_no_errors is enabled
 # to guard against infinite loop
 ITERATION_LIMIT = 150
@@ -224,7 +228,7 @@ class BaseNodeVisitor(ast.NodeVisitor):
         changes = collections.defaultdict(list)
         with qcore.override(self.__class__, "_changes_for_fixer", changes):
             result = self.check()
-        lines = [line + "\n" for line in self.contents.splitlines()]
+        lines = self._lines()
         if self.filename in changes:
             lines = self._apply_changes_to_lines(changes[self.filename], lines)
         return result, "".join(lines)
@@ -236,7 +240,10 @@ class BaseNodeVisitor(ast.NodeVisitor):
 
     @qcore.caching.cached_per_instance()
     def _lines(self) -> list[str]:
-        return [line + "\n" for line in self.contents.splitlines()]
+        lines = _LINE_TERMINATOR.split(self.contents)
+        if not lines[-1]:
+            lines.pop()
+        return [line + "\n" for line in lines]
 
     @qcore.caching.cached_per_instance()
     def has_file_level_ignore(
